@@ -1,0 +1,86 @@
+//! Verification facade (cargo feature `verif`, off by default).
+//!
+//! Public wrappers around crate-private entry points so that an external deterministic
+//! simulator can drive a [`Chitchat`] instance step by step, plus a seedable generator for the
+//! equal-staleness shuffle. Nothing in here changes behaviour when the feature is off.
+
+use std::cell::Cell;
+use std::collections::HashSet;
+use std::net::SocketAddr;
+
+use rand::rngs::StdRng;
+use rand::{Rng, SeedableRng};
+
+use crate::digest::Digest;
+use crate::serialize::{Deserializable, Serializable};
+use crate::{Chitchat, ChitchatMessage};
+
+thread_local! {
+    static SHUFFLE_SEED: Cell<u64> = const { Cell::new(0) };
+}
+
+/// Sets the seed used by the next equal-staleness shuffles on this thread.
+pub fn set_shuffle_seed(seed: u64) {
+    SHUFFLE_SEED.with(|cell| cell.set(seed));
+}
+
+/// Generator used for the equal-staleness shuffle when the feature is on. Each call advances the
+/// thread-local seed so that consecutive delta computations do not reuse a permutation.
+pub(crate) fn shuffle_rng() -> StdRng {
+    let seed = SHUFFLE_SEED.with(|cell| {
+        let seed = cell.get();
+        cell.set(seed.wrapping_add(0x9E37_79B9_7F4A_7C15));
+        seed
+    });
+    StdRng::seed_from_u64(seed)
+}
+
+impl Chitchat {
+    pub fn verif_create_syn_message(&self) -> ChitchatMessage {
+        self.create_syn_message()
+    }
+
+    pub fn verif_process_message(&mut self, msg: ChitchatMessage) -> Option<ChitchatMessage> {
+        self.process_message(msg)
+    }
+
+    pub fn verif_update_nodes_liveness(&mut self) {
+        self.update_nodes_liveness()
+    }
+
+    pub fn verif_gc_keys_marked_for_deletion(&mut self) {
+        self.gc_keys_marked_for_deletion()
+    }
+
+    pub fn verif_update_self_heartbeat(&mut self) {
+        self.update_self_heartbeat()
+    }
+
+    /// Computes the delta this node would send in reply to the serialized `digest_bytes` under
+    /// the byte budget `mtu`, and returns its serialized form.
+    pub fn verif_compute_delta(&self, digest_bytes: &[u8], mtu: usize) -> anyhow::Result<Vec<u8>> {
+        let mut cursor = digest_bytes;
+        let digest = Digest::deserialize(&mut cursor)?;
+        let scheduled_for_deletion: HashSet<_> = self.scheduled_for_deletion_nodes().collect();
+        let delta = self.cluster_state().compute_partial_delta_respecting_mtu(
+            &digest,
+            mtu,
+            &scheduled_for_deletion,
+        );
+        Ok(delta.serialize_to_vec())
+    }
+}
+
+/// Forwards to the private peer selection function of the server.
+pub fn select_nodes_for_gossip<R>(
+    rng: &mut R,
+    peer_nodes: HashSet<SocketAddr>,
+    live_nodes: HashSet<SocketAddr>,
+    dead_nodes: HashSet<SocketAddr>,
+    seed_nodes: HashSet<SocketAddr>,
+) -> (Vec<SocketAddr>, Option<SocketAddr>, Option<SocketAddr>)
+where
+    R: Rng + ?Sized,
+{
+    crate::server::verif_select_nodes_for_gossip(rng, peer_nodes, live_nodes, dead_nodes, seed_nodes)
+}
